@@ -22,12 +22,18 @@
    and the claimed length - not from the model), no touch and no `new` ends in the hook;
    model side: [view_new] of Model/Mapped.v on the same file and offset in the build's mode ends the same way
    (Ok with the same offset / length / claimed length, Err of the same kind, panic of the same class), and every touch
-   ends like the model's accessor. *)
+   ends like the model's accessor.
+   Objects (CObj, Check/C08Obj.v): Transformation::{bit, word, count_ones, one_iter}, RankSupport::{blocks, rank} and
+   SelectSupport::<T>::{superblocks, long_superblocks, short_superblocks, select} called directly on a parent with the
+   supports `new` builds from the parent itself and from another bitvector.
+   spec side: no hook; an index whose word lies behind the parent's buffer panics; in-range answers with the parent's
+   own support are the naive ones; model side: Model/BitVecObj.v ends every call the same way. *)
 From Coq Require Import NArith List Bool.
 Require Import SDS.Model.Mach SDS.Model.Bits SDS.Model.Raw SDS.Model.IntVec SDS.Model.BitVec.
 Require Export SDS.Model.Mapped.   (* the case files name the view types *)
 Require Import SDS.Model.MappedGet.
 Require Import SDS.Check.Common.
+Require Export SDS.Check.C08Obj.   (* the calls of the "objects" family (CObj) *)
 (* operation histories: only qualified names are used (rop / iop share constructor names with rcall / icall below) *)
 Require SDS.Spec.SeqSpec SDS.Model.Hist.
 Import ListNotations.
@@ -107,6 +113,9 @@ Inductive case :=
 (* every IntVectorMapper (opt: inside a MappedOption) that `new` returned on the file: offset, len(), width(), and
    get(index) at extreme indexes below len() (the length element is whatever the file holds) *)
 | CMGet (dbg : bool) (file : list N) (opt : bool) (probes : list (N * N * N * list (N * ires unit)))
+(* the safe entry points of Transformation / RankSupport / SelectSupport called directly on the parent (len, words),
+   with the supports `new` builds from the parent and from another bitvector (slen, swords): Check/C08Obj.v *)
+| CObj (path : N) (dbg : bool) (len : N) (words : list N) (slen : N) (swords : list N) (calls : list ocall)
 (* the batch's process died: status = signal number, or 1000 + exit code, or 2000 = result file incomplete *)
 | CDied (kind : N) (status : N).
 
@@ -441,6 +450,7 @@ Definition check (c : case) : N :=
       code (forallb (model_mview (mode_of dbg) file ty) views) (forallb (spec_mview file ty) views)
   | CMGet dbg file opt probes =>
       code (forallb (model_mget (mode_of dbg) file opt) probes) (forallb spec_mget probes)
+  | CObj path dbg len words slen swords calls => check_obj (sp_of path) (mode_of dbg) len words slen swords calls
   | CDied _ _ => 3
   end.
 
@@ -467,5 +477,6 @@ Definition explain (c : case) : list bool :=
       map (fun o => model_mview (mode_of dbg) file ty o && spec_mview file ty o) views
   | CMGet dbg file opt probes =>
       map (fun p => model_mget (mode_of dbg) file opt p && spec_mget p) probes
+  | CObj path dbg len words slen swords calls => explain_obj (sp_of path) (mode_of dbg) len words slen swords calls
   | CDied _ _ => []
   end.
